@@ -38,10 +38,10 @@ CLAIMED = {
         "buffer is named by nobody; C03_handles_live; C03_no_leak — when all handles are gone no block is live."),
         note=TB + " The real allocator is represented by an oracle that may refuse any request; the shadow heap in the harness (guard zones, poison, quarantine, always-moving realloc) is the runtime counterpart.",
         technique="Coq: invariant (refcount = number of handles) preserved by every operation; shadow-heap monitors on the real crate", design='§7 C03'),
-    'C04': dict(text=("PARTIAL in one respect only (per-thread sequential results, see the end). Theorems: C04_protocol_safe_all_schedules / C04_invariant — a reference-count protocol machine "
+    'C04': dict(text=("Theorems: C04_protocol_safe_all_schedules / C04_invariant — a reference-count protocol machine "
         "(vector clocks for happens-before, C11 release/acquire rules, release sequences through RMWs, acquire loads that may read ANY not-yet-overwritten message, acquire fence as its own "
         "action, header read by the freeing thread, dealloc only after the fence, handles moved at spawn, joins) never reaches a data race, a use after free or a double free, for any number "
-        "of threads and every schedule (invariant J1-J8); C04_clone/drop/reserve/ensure_modifiable_respects_protocol and C04_every_operation_respects_protocol — the command trees of ALL "
+        "of threads and every schedule (invariant J1-J10); C04_clone/drop/reserve/ensure_modifiable_respects_protocol and C04_every_operation_respects_protocol — the command trees of ALL "
         "modelled readers and mutators (as_bytes, push_str, pop, truncate, remove, insert_str, retain, clear, shrink_to, reserve, clone, drop) perform, whatever values shared memory returns, only "
         "events whose protocol precondition holds; the typing also checks the orderings regenerated from the source (decrement at least Release, uniqueness load and the fence at least Acquire, "
         "fence before the header read and the dealloc); COMPOSITION: C04_typed_step / C04_typed_safe / C04_typed_progress (Compose.v) — in the interleaving semantics that runs thread programs "
@@ -53,16 +53,27 @@ CLAIMED = {
         "configuration where every started thread has finished the buffer is no longer live; FRAME: C04_write_excludes_others / C04_free_excludes_holders / C04_no_interference_while_held - while a "
         "thread holds a reference and is not running, no successful step of another thread writes, reallocates or frees the buffer; C04_execution_example - an executable scheduler (Sched.v, proved "
         "sound for the semantics) runs a two-thread program to completion inside Coq; C04_atomic_sites — the atomic call sites regenerated from the "
-        "source are exactly the expected ones. NOT proved: that each thread reads back exactly what its own operations would produce sequentially (the data content under interleaving; the "
-        "theorems give race freedom and the frame, which is what makes the sequential theorem C01 applicable to each thread's buffer accesses, but that last step is an argument, not a theorem), "
-        "and a typing rule for lending in the program semantics. LENDING &LeanString to a scoped thread that reads and clones through it is part of the machine (ALend / AReadB / ACloneB / AJoinB, invariant J10, "
+        "source are exactly the expected ones. PER-THREAD RESULTS: the sequential interpreter Cmd.run reads every reference count as (the references of this thread's world) + ext, where "
+        "ext is an arbitrary oracle consulted afresh at every atomic read (what the handles held by other threads add; a decrement that gives up the world's last reference while ext > 0 frees nothing "
+        "and the buffer leaves the world); every function specification and C01_step are proved for EVERY oracle, and C04_thread_results_sequential states the consequence: from any well-formed "
+        "world of a thread, for every history of its operations and every sequence of foreign contributions, the world stays well-formed, nothing undefined is reached and texts and returned "
+        "values are exactly Spec's (String's). The link (why other threads appear to a thread only through such an oracle): C04_rmw_reads_own_plus_rest / C04_load_reads_own_plus_rest - in "
+        "the protocol machine every value an RMW or a possibly stale acquire load returns to thread t is at least the number of references t holds (from J1 / J7) - and "
+        "C04_typed_values_own_plus_rest - in every configuration a well-typed program reaches, the value handed to a thread's continuation by a load or RMW of the shared count is its ghost count "
+        "plus a non-negative rest; together with the frame (nobody writes, moves or frees a buffer a thread holds) this is what the oracle semantics assumes. What stays an argument rather than one "
+        "theorem: the interleaving semantics of Compose.v carries no buffer contents, so the statement 'the projection of an interleaved execution onto one thread is a Cmd.run execution for some "
+        "oracle' is the conjunction of the theorems above, not a single simulation theorem. SHARING BY REFERENCE IN THE PROGRAM SEMANTICS (std::thread::scope): the typing carries who borrows (g_bor) and whom a thread "
+        "has lent to (lt, in agreement with the machine's lend fields); PLend / PJoinB items; a borrower's events map to AReadB / ACloneB; C04_typed_step / _safe / _progress / C04_all_finished_released "
+        "hold for such programs, and C04_scoped_handles_typed / _safe / _released: for every n and all operation sequences, thread 0 lends &handle to n scoped threads, each reads and clones through it "
+        "(any sequence of reads and mutations on every clone, then drop), the scope ends, thread 0 runs any sequence and drops; C04_scoped_execution_example runs a three-thread instance to completion "
+        "inside Coq. LENDING &LeanString to a scoped thread that reads and clones through it is part of the machine (ALend / AReadB / ACloneB / AJoinB, invariant J10, "
         "stale-read bound J7 relative to the joint knowledge of a thread and its borrowers): covered by "
         "C04_protocol_safe_all_schedules for every schedule and any number of borrowers; C04_borrowed_buffer_protected - while a loan is outstanding the buffer is live, the lender holds its "
         "reference, nobody is exclusive or must free. Tie to the code: the real crate built with "
         "--cfg loom --cfg lean_string_verif; every buffer gets a loom UnsafeCell touched by the crate's access notes, so loom's causality checker reports unordered conflicting accesses and the "
         "shim reports accesses to freed buffers; 273 two-thread programs (13 ops x 13 ops x 3 sharing variants), each thread checked against String, all buffers freed at the end of every execution."),
         note=TB + " The C11 fragment formalised in conc/Mach.v is hand-written; the ghost state of Proto.okc is carried by the interleaving semantics as instrumentation (it constrains only the freshness of allocated buffer ids); buffer ids are never reused in the model; 'stronger orderings are also fine' is checked by the typing (at-least tests), not by the machine; loom does not explore every C11 relaxed behaviour; hardware and compiler are out of scope.",
-        technique="Coq: invariant over a vector-clock protocol machine (all schedules, stale reads) + demonic typing of all command trees + preservation/progress for the interleaving semantics of typed thread programs; loom exploration of the real crate with buffer-access cells", design='§7 C04'),
+        technique="Coq: invariant over a vector-clock protocol machine (all schedules, stale reads) + demonic typing of all command trees + preservation/progress for the interleaving semantics of typed thread programs + refinement to the String spec under an arbitrary foreign-reference oracle; loom exploration of the real crate with buffer-access cells", design='§7 C04'),
     'C05': dict(text=T("Theorems, for every allocator oracle (so for every single, paired or longer fault sequence): C05_failure_changes_nothing — when push, push_str, "
         "insert, insert_str, remove, retain, reserve or shrink_to reports a ReserveError (try form) or panics with it (plain form) the pool and the heap are "
         "exactly as before; C05_iterators_stop_between_items — extend / write! stop after some prefix of the items; C05_ctor_failure_leaves_nothing — a failed "
